@@ -51,13 +51,29 @@ pub async fn exec(a: &Args) -> Args {
     let (mode, code, mask) = (a[0][0], a[0][1], a[0][2]);
     let bytes = a2b(&a[1]);
     let reason = a2b(&a[2]);
-    let (server, addr) = wt_server(None);
+    // mode 5: the endpoint's idle timeout is 400 ms and the peer stays silent
+    let transport = if mode == 5 {
+        let mut t = wtransport::quinn::TransportConfig::default();
+        t.max_idle_timeout(Some(Duration::from_millis(400).try_into().unwrap()));
+        Some(t)
+    } else {
+        None
+    };
+    let (server, addr) = wt_server(transport);
     let ep = raw_client(None);
     let (app, raw) = tokio::join!(wt_accept(&server), raw_establish(&ep, addr, "/s"));
     let (conn, mut raw) = match (app, raw) {
         (Ok(c), Ok(r)) => (c, r),
         (a, r) => return vec![vec![2], crate::b2s(&format!("setup failed: {:?} / {:?}", a.err(), r.err().map(|e| e)))],
     };
+    if mode == 6 {
+        // every handle of the application goes away: the peer must see the connection end
+        drop(conn);
+        let seen = raw_wait_closed(&raw.conn, Duration::from_millis(1500)).await;
+        server.close(vi(0), b"");
+        ep.close(qvi(0), b"");
+        return vec![vec![1], seen.0, seen.1];
+    }
     // pending calls
     let c1 = conn.clone();
     let c2 = conn.clone();
@@ -81,6 +97,11 @@ pub async fn exec(a: &Args) -> Args {
         2 => {
             tokio::time::sleep(T_SHORT).await;
             raw.conn.close(qvi(code), &reason);
+        }
+        // the application itself closes the connection
+        4 => {
+            tokio::time::sleep(T_SHORT).await;
+            conn.close(vi(code), &reason);
         }
         _ => {}
     }
@@ -177,6 +198,12 @@ pub fn oracle(a: &Args, out: &Args) -> Option<(&'static str, String)> {
         return None;
     }
     let mode = a[0][0];
+    if mode == 6 {
+        if out.len() < 2 || out[1].first() == Some(&TAG_PENDING) {
+            return Some(("C09", "the application dropped every handle but the peer never saw the connection end".into()));
+        }
+        return None;
+    }
     const CALLS: [(usize, &str); 8] = [(1, "pending accept_uni"), (3, "pending accept_bi"), (5, "pending receive_datagram"),
         (7, "accept_uni"), (9, "accept_bi"), (11, "receive_datagram"), (13, "open_uni"), (15, "closed()")];
     // what the peer did, read independently of the library
@@ -191,6 +218,22 @@ pub fn oracle(a: &Args, out: &Args) -> Option<(&'static str, String)> {
             if i >= 7 && i <= 13 && out[i][0] == TAG_OK {
                 return Some(("C09", format!("{} succeeded after the session ended", name)));
             }
+        }
+    }
+    // C09: a local close is reported as such and the peer gets the code and reason; an idle timeout is
+    // reported as a timeout
+    if mode == 4 || mode == 5 {
+        let want = if mode == 4 { vec![3u64] } else { vec![4u64] };
+        for (i, name) in CALLS {
+            if out[i][0] != 9 && out[i] != want {
+                return Some(("C09", format!("{}: {} reported {:?}", if mode == 4 { "the application closed the connection" } else { "idle timeout" }, name, out[i])));
+            }
+        }
+        if mode == 4 && (out[17] != vec![1, a[0][1]] || out[18] != a[2]) {
+            return Some(("C09", format!("the application closed with ({}, {:?}) but the peer saw {:?} {:?}", a[0][1], a[2], out[17], out[18])));
+        }
+        if mode == 5 && out[17] != vec![4] && out[17] != vec![1, 0] {
+            return Some(("C09", format!("idle timeout: the peer saw {:?}", out[17])));
         }
     }
     // C04 / C09: every call reports the cause: the peer's exact code and reason for an application
@@ -278,6 +321,16 @@ pub fn generate(rng: &mut Rng, thorough: bool) -> Vec<Case> {
         let reason: Vec<u8> = match i % 3 { 0 => vec![], 1 => b"quic-bye".to_vec(), _ => vec![0xff, 0x00, 0xfe, 0x80] };
         cs.push(Case::new(601, vec![vec![2, *c, 7], vec![], b2a(&reason)], "peer-quic-close"));
     }
+    // other causes (C09): local close with code and reason, idle timeout, all handles dropped
+    for (i, c) in [0u64, 9, (1 << 32) + 1, (1 << 62) - 1].iter().enumerate() {
+        let reason: Vec<u8> = if i % 2 == 0 { b"local-bye".to_vec() } else { vec![] };
+        for m in [7u64, 0] {
+            cs.push(Case::new(601, vec![vec![4, *c, m], vec![], b2a(&reason)], "local-close"));
+        }
+    }
+    cs.push(Case::new(601, vec![vec![5, 0, 7], vec![], vec![]], "idle-timeout"));
+    cs.push(Case::new(601, vec![vec![5, 0, 0], vec![], vec![]], "idle-timeout"));
+    cs.push(Case::new(601, vec![vec![6, 0, 0], vec![], vec![]], "handles-dropped"));
     // nothing happens: calls stay pending (the model must say so too)
     cs.push(Case::new(601, vec![vec![3, 0, 7], b2a(&raw_frame(0x21, &[])), vec![]], "stays-open"));
     let _ = rng.next();
